@@ -9,6 +9,7 @@ import c09_adopt
 import c09_reopen
 import core
 import treeops as T
+import treetable
 
 
 def corpus(name):
@@ -138,6 +139,7 @@ def argument_forms():
 
 
 def run(ctx: core.Run):
+    treetable.regenerate(ctx)
     ctx.prove(["PsdVerif.Props.C09"] + c09_reopen.modules(ctx))
     ctx.trusted_base += T.TRUSTED
     ctx.assumptions += T.ASSUME
@@ -174,6 +176,7 @@ def run(ctx: core.Run):
     # adopted layers, save + reopen of both documents; boundary worlds (mixed per-plane compression) first
     adopt_traces, adopt_other = c09_adopt.run_block(ctx, sys.modules[__name__])
     T.compare_with_model(ctx, traces + adopt_traces, what="C09")
+    treetable.correspond(ctx, traces + adopt_traces, "C09")
     T.coverage(ctx, traces + adopt_traces + adopt_other)
     T.report(ctx, traces + adopt_traces + adopt_other, props=("C09",))
     # save + reopen: after the corpus histories, after every walk, after a sample of the exhaustive histories
@@ -237,7 +240,7 @@ def run(ctx: core.Run):
                 "documents reopen with the same tree and, plane for plane, the pixels they have in memory."
                 % (depth, n_walks, max_len, len(recipes), len(chosen), ctx.extra.get("adopt_worlds", 0),
                    ctx.extra.get("adopt_histories", 0)))
-    ctx.notes += [
+    ctx.notes += treetable.NOTES + [
         "save_reopen (DESIGN C09) is evaluated on the real code only (oracle: save -> open -> compare); its Lean "
         "composition with the parse / flatten model (C08) and the record codec (C01) is pending",
         "pixels of adopted layers (harness/c09_adopt.py) are an oracle on the real code only: PixelLayer._convert is opaque "
